@@ -35,6 +35,7 @@ def subTok (sb : Sub) : Bool :=
 def spWill : SpPc → Bool
   | .awake | .cnt1 | .cnt2 _ => true
   | .computed e => decide (1 ≤ e)
+  | .enter e => decide (1 ≤ e)
   | .loop i e => decide (i < e)
   | _ => false
 
@@ -45,7 +46,7 @@ instance (s : St) : Decidable (Good s) := by unfold Good; exact inferInstance
 
 structure InvG (s : St) : Prop where
   noX : s.closed = false → ∀ w ∈ s.workers, w ≠ .exitDec false
-  spE : ∀ e, s.sp = .computed e → 1 ≤ e
+  spE : ∀ e, s.sp = .computed e ∨ s.sp = .enter e → 1 ≤ e
   spL : ∀ i e, s.sp = .loop i e → i < e
   good : s.closed = false → s.queue ≠ [] → Good s
 
@@ -200,10 +201,19 @@ theorem stepPool_invG {c : Cfg} {s t : St} {a : Act} (hs : 1 ≤ c.standby) (hm 
   case spRead =>
     step_split h
     · next e hsp hlt =>
+      exact ⟨hi.noX, by intro e' h1; simp at h1; omega, by simp,
+        fun _ _ => Or.inr (Or.inr (Or.inr (by simp [spWill]; omega)))⟩
+    · next e hsp hge =>
+      have he := hi.spE e (Or.inl hsp)
+      refine ⟨hi.noX, by simp, by simp, fun hc _ => Or.inl ?_⟩
+      exact alive_help (s := s) hw0 (hi.noX hc) (by omega)
+  case spInit =>
+    step_split h
+    · next e hsp hlt =>
       exact ⟨hi.noX, by simp, by intro i e' h1; simp at h1; omega,
         fun _ _ => Or.inr (Or.inr (Or.inr (by simp [spWill]; exact hlt)))⟩
     · next e hsp hge =>
-      have he := hi.spE e hsp
+      have he := hi.spE e (Or.inr hsp)
       refine ⟨hi.noX, by simp, by simp, fun hc _ => Or.inl ?_⟩
       exact alive_help (s := s) hw0 (hi.noX hc) (by omega)
   case spGen =>
